@@ -50,6 +50,8 @@ def plan(tier, seed):
     for i in range(nt):
         specs.append(dict(kind='t16', seed=seed, shard=i, lo=i * (65536 // nt), hi=(i + 1) * (65536 // nt),
                           reps=1 if q else 8))
+    for i in range(2 if q else 8):
+        specs.append(dict(kind='after-return', seed=seed, shard=i, n=1500 if q else 40000))
     return specs
 
 
@@ -220,6 +222,74 @@ class Mon:
                             dict(d1, cond=cond, nzcv=nz, differing=sorted(ch)), dict(d1, cond=cond, nzcv=nz))
 
 
+def it_advance_ref(it):
+    if (it & 7) == 0:
+        return 0
+    return (it & 0xE0) | ((it << 1) & 0x1F)
+
+
+def after_return(mon, spec):
+    """two-instruction sequences: an exception return executed OUTSIDE an IT block (ARM or Thumb handler) lands in the middle
+    of a Thumb IT block; the first instruction there runs under the restored condition: failing -> nothing but PC and
+    ITSTATE advance, passing -> it executes (without setting flags) and ITSTATE advances just the same"""
+    from vf import observe, machine as M
+    rng = mon.rng
+    scen = mon.scen
+    for i in range(spec['n']):
+        ctx = mon.ctx(rng.choice([('v7-pmsa-r', 'off'), ('v6-pmsa-sec', 'off'), ('v7-vmsa-sec', 'off'), ('v7-vmsa-virt', 'off')]))
+        if ctx.cfg['arch_version'] < 7 and False:
+            continue
+        cond = rng.randrange(14)
+        nzcv = rng.randrange(16)
+        low = rng.choice([0b1000, 0b0100, 0b1100, 0b0010, 0b0110, 0b1010, 0b1110, 0b0001, 0b0011, 0b0101, 0b0111, 0b1001, 0b1011,
+                          0b1101, 0b1111])
+        it = (cond << 4) | low
+        arm_handler = rng.random() < 0.5
+        target_mode = rng.choice(['usr', 'sys', 'svc', 'irq'])
+        word, kind = (0xE1B0F00E, 'arm') if arm_handler else (0xF3DE8F00, 't32')       # MOVS PC,LR / SUBS PC,LR,#0
+        regs = [rng.getrandbits(32) for _ in range(15)]
+        tgt = scen.CODE + 0x40
+        regs[14] = tgt
+        desc = scen.prepare(ctx, rng, kind, word, mode='svc', itpos='out', regs=regs, nzcv=rng.randrange(16))
+        cpu = ctx.cpu
+        r = cpu.registers
+        spsr = (nzcv << 28) | ((it & 3) << 25) | ((it >> 2) << 10) | (1 << 5) | M.MODES[target_mode] | (rng.getrandbits(1) << 27)
+        r.spsr_svc = spsr
+        # ADD r0, r1, r2 (16-bit: sets flags only outside an IT block) ; NOPs
+        M.poke(cpu, tgt, (0x1888).to_bytes(2, 'little') + b'\x00\xbf' * 6)
+        k1, _ = scen.step(cpu)
+        s1 = observe.snapshot(cpu)
+        mon.res['evaluations'] += 1
+        if k1 != 'ok' or s1['PC'] != tgt or s1['cpsr'] != spsr:
+            mon.bump('after_return_first_step_not_as_set_up')      # the return itself is C12's business
+            continue
+        k2, _ = scen.step(cpu)
+        s2 = observe.snapshot(cpu)
+        mon.bump('after_return_sequences')
+        passed = cond_holds(cond, nzcv)
+        want_it = it_advance_ref(it)
+        got_it = (((s2['cpsr'] >> 10) & 0x3F) << 2) | ((s2['cpsr'] >> 25) & 3)
+        ch = observe.diff(s1, s2)
+        mon.res['nontrivial'].add('after-return|c%d|%s|%s|%s' % (cond, 'pass' if passed else 'fail', 'arm' if arm_handler else 'thumb', format(low, '04b')))
+        why = None
+        rn = {'usr': 'usr', 'sys': 'usr', 'svc': 'usr', 'irq': 'usr'}[target_mode]
+        if k2 != 'ok':
+            why = 'second step: %s' % k2
+        elif got_it != want_it:
+            why = 'ITSTATE %#04x -> %#04x, ITAdvance gives %#04x' % (it, got_it, want_it)
+        elif s2['PC'] != tgt + 2:
+            why = 'PC %#x, expected %#x' % (s2['PC'], tgt + 2)
+        elif (s1['cpsr'] ^ s2['cpsr']) & ~0x0600FC00:
+            why = 'CPSR bits other than ITSTATE changed: %#x -> %#x' % (s1['cpsr'], s2['cpsr'])
+        elif not passed and ch - {'PC', 'cpsr'}:
+            why = 'failed condition changed %s' % sorted(ch - {'PC', 'cpsr'})
+        elif passed and s2['R0usr'] != (s1['R1usr'] + s1['R2usr']) & 0xFFFFFFFF:
+            why = 'passing condition: R0 = %#x, expected %#x' % (s2['R0usr'], (s1['R1usr'] + s1['R2usr']) & 0xFFFFFFFF)
+        if why:
+            mon.report('C05|after-exception-return|%s|%s' % ('passed' if passed else 'failed', 'arm-handler' if arm_handler else 'thumb-handler'),
+                       dict(desc, cond=cond, nzcv=nzcv, itstate='%#04x' % it, target_mode=target_mode, why=why), dict(desc, cond=cond, nzcv=nzcv))
+
+
 def categ(name):
     if name.startswith('mem'):
         return 'mem'
@@ -303,6 +373,8 @@ def run_shard(spec):
     kind = spec['kind']
     if kind == 'table':
         table(mon)
+    elif kind == 'after-return':
+        after_return(mon, spec)
     elif kind in ('arm', 't32'):
         cubes, info = td.all_paths(random.Random(spec['seed']))
         if not (info[kind]['complete'] and info[kind]['partition_ok']):
